@@ -539,3 +539,36 @@ def family_sp_conversion(tier, seed):
                 m = {"id": "1.100000001", "event_id": "30000001", "market_type": "WIN", "winners": 1, "bsp": True, "persistence": True, "runners": [11, 12], "updates": ups}
                 out.append({"id": "spc%d" % k, "cfg": {}, "markets": [m], "strategies": [{"name": "A", "max_live_trade_count": 10, "script": script}]})
     return out
+
+
+def family_bucket_corners(tier, seed):
+    """corners of the size bookkeeping the random scenarios hit only by chance: full-match clients with fill-or-kill
+    orders that are killed / partly filled; a replace (or cancel) in flight followed in the same callback by a partial
+    cancel that is refused; both sides"""
+    out = []
+    k = 0
+    for side in ("BACK", "LAY"):
+        same = [[3.0, 4.0], [2.8, 10.0]] if side == "BACK" else [[3.0, 4.0], [3.2, 10.0]]
+        atb, atl = (same, [[3.4, 10.0]]) if side == "BACK" else ([[2.6, 10.0]], same)
+        def ups():
+            return [{"pt": 1000 * j, "status": "OPEN", "version": 1, "rstat": {"11": ["ACTIVE", 50.0, None], "12": ["ACTIVE", 50.0, None]},
+                     "books": {"11": _bk(atb, atl, [[3.0, 4.0 * j]]), "12": _bk([[5.0, 10.0]], [[5.5, 10.0]], [])}} for j in range(6)]
+        # (a) full-match client
+        k += 1
+        acts = [{"op": "place", "o": "a%d" % i, "t": "ta%d" % i, "sel": 11, "side": side, "price": price, "size": size, "tif": "FILL_OR_KILL", **({"min_fill": mf} if mf else {})}
+                for i, (price, size, mf) in enumerate([(3.0, 10.0, None), (3.0, 10.0, 2.0), (3.0, 4.0, None), (2.9 if side == "BACK" else 3.1, 10.0, 5.0),
+                                                        (3.3 if side == "BACK" else 2.7, 6.0, None), (3.0, 2.0, None)])]
+        acts.append({"op": "place", "o": "plain", "t": "tplain", "sel": 11, "side": side, "price": 3.0, "size": 10.0})
+        m = {"id": "1.100000001", "event_id": "30000001", "market_type": "WIN", "winners": 1, "bsp": True, "persistence": True, "runners": [11, 12], "updates": ups()}
+        out.append({"id": "bc%d" % k, "cfg": {"full_match": True}, "markets": [m], "strategies": [{"name": "A", "max_live_trade_count": 1000, "script": {"1.100000001|0|book": acts}}]})
+        # (b) an operation in flight, then a partial cancel that is refused, in one callback
+        for first in ("replace", "cancel", "update"):
+            k += 1
+            rest_price = 3.3 if side == "BACK" else 2.7        # rests
+            a0 = {"replace": {"op": "replace", "o": "r1", "price": 3.35 if side == "BACK" else 2.65}, "cancel": {"op": "cancel", "o": "r1"},
+                  "update": {"op": "update", "o": "r1", "pers": "PERSIST"}}[first]
+            script = {"1.100000001|0|book": [{"op": "place", "o": "r1", "t": "tr1", "sel": 11, "side": side, "price": rest_price, "size": 10.0}],
+                      "1.100000001|2000|book": [a0, {"op": "cancel", "o": "r1", "reduction": 4.0}]}
+            m = {"id": "1.100000001", "event_id": "30000001", "market_type": "WIN", "winners": 1, "bsp": True, "persistence": True, "runners": [11, 12], "updates": ups()}
+            out.append({"id": "bc%d" % k, "cfg": {}, "markets": [m], "strategies": [{"name": "A", "max_live_trade_count": 1000, "script": script}]})
+    return out
